@@ -79,6 +79,17 @@ Init ==
                       EXCEPT !.impls = <<Impl("B", <<Func("r#type", "pub", <<>>, <<ArgC>>, TNone, 327680, None, "")>>),
                                          Impl("C", <<Func("r#type", "pub", <<>>, <<ArgC>>, TNone, 393216, None, "")>>)>>]>>]
      /\ tag = <<"shape", "raw-ident-rename">>
+  (* attributes with an empty or an over-long argument list, on every kind of item that takes attributes *)
+  \/ \E x \in {"calling_convention()", "address()", "index()", "size()", "align()", "singleton()", "base()", "doc()",
+                 "address(1, 2)", "size(8, 8)", "calling_convention(\"cdecl\", \"cdecl\")", "index(\"0\")", "address(\"x\")"} :
+        /\ input = [ptr |-> 8, mods |-> <<[Module(<<"m">>, <<>>,
+                       <<[TypeDef("T", "pub", <<Field("a", "pub", <<>>, TNm("u32"), None, FALSE) @@ [xattrs |-> <<x>>],
+                                              Field("b", "pub", <<>>, TNm("u32"), None, FALSE)>>)
+                            EXCEPT !.vft = Vft(None, <<[Func("vf", "pub", <<>>, <<ArgM>>, TNone, None, None, "") EXCEPT !.xattrs = <<x>>]>>)]
+                          @@ [xattrs |-> <<x>>],
+                         EnumDef("En", "pub", TNm("u32"), <<Variant("A", NumNone, FALSE)>>) @@ [xattrs |-> <<x>>]>>)
+                       EXCEPT !.impls = <<Impl("T", <<[Func("h", "pub", <<>>, <<ArgC>>, TNone, 4096, None, "") EXCEPT !.xattrs = <<x>>]>>)>>]>>]
+        /\ tag = <<"xattr", x>>
   \/ \E sq \in Sequences :
         /\ input = [MkInput(8, "none", Num("0", 0), "T", "a") EXCEPT !.mods = [i \in DOMAIN sq |-> @[1]]]
         /\ tag = <<"seq", "dup">>
